@@ -184,6 +184,17 @@ pub fn search(tier: &str, seed: u64, s: &mut Search) {
                 r#"<path d="M {x} {y} l {dx} {dy} l {dx} -{dy}" fill="none" stroke="{}" stroke-width="{}" stroke-linejoin="{}" stroke-miterlimit="{}" stroke-linecap="{}"/>"#,
                 rng.pick(&["#00f", "#0a0", "#f00"]), rng.pick(&["4", "8", "12", "2.5"]), rng.pick(&["miter", "miter-clip", "miter-clip", "round", "bevel"]), rng.pick(&["4", "6", "10", "40"]), rng.pick(&["butt", "square", "round"])
             );
+            // every third shape is a text with a wide stroke (its own route to a stroke box: text/flatten.rs)
+            let shape = if rng.chance(1, 3) {
+                let content = *rng.pick(&["Ab", "o", "<tspan dy=\"4\">x</tspan>y", "W"]);
+                format!(
+                    r#"<text x="{x}" y="{}" font-family="Noto Sans" font-size="{}" font-weight="bold" fill="{}" stroke="{}" stroke-width="{}" stroke-linejoin="{}"{}>{content}</text>"#,
+                    y + 30, rng.range(24, 50), rng.pick(&["gold", "none"]), rng.pick(&["navy", "#a00"]), rng.pick(&["6", "10", "14"]), rng.pick(&["round", "miter", "bevel"]),
+                    if rng.chance(1, 3) { r#" paint-order="stroke""# } else { "" }
+                )
+            } else {
+                shape
+            };
             let tf = match rng.below(3) {
                 0 => String::new(),
                 1 => format!(r#" transform="rotate({} {} {})""#, rng.range(-40, 40), x, y),
@@ -197,6 +208,34 @@ pub fn search(tier: &str, seed: u64, s: &mut Search) {
             continue;
         }
         compare(s, "stroke-extent", &svg, &svg, &iso, &o, &mut rng);
+    }
+    // ---- SVG images whose content reaches beyond their own size: what is visible must not depend on whether an
+    // ancestor is rendered through a layer (which is sized by the image's box)
+    let nio = (if tier == "thorough" { 300 } else { 40 }) * mult;
+    for i in 0..nio {
+        let (w, h) = (rng.range(70, 120) as u32, rng.range(70, 120) as u32);
+        let (iw, ih) = (rng.range(16, 40), rng.range(16, 40));
+        let inner = match i % 4 {
+            0 => format!(r##"<svg xmlns="http://www.w3.org/2000/svg" width="{iw}" height="{ih}"><rect x="-100" y="{}" width="300" height="6" fill="#d00"/><circle cx="{}" cy="{}" r="{}" fill="#06c"/></svg>"##, ih / 3, iw / 2, ih / 2, iw / 3),
+            1 => format!(r##"<svg xmlns="http://www.w3.org/2000/svg" width="{iw}" height="{ih}"><circle cx="{iw}" cy="{ih}" r="{}" fill="#0a0" stroke="#222" stroke-width="5"/></svg>"##, iw),
+            2 => format!(r##"<svg xmlns="http://www.w3.org/2000/svg" width="{iw}" height="{ih}" viewBox="0 0 10 10"><path d="M -20 5 L 30 5" stroke="#909" stroke-width="3"/><rect width="10" height="10" fill="#fc0" fill-opacity="0.5"/></svg>"##),
+            _ => format!(r##"<svg xmlns="http://www.w3.org/2000/svg" width="{iw}" height="{ih}"><rect width="{iw}" height="{ih}" fill="#4a8"/><rect x="2" y="2" width="{}" height="{}" fill="none" stroke="#000" stroke-width="2"/></svg>"##, iw - 4, ih - 4),
+        };
+        let uri = format!("data:image/svg+xml;base64,{}", crate::c17::b64(inner.as_bytes()));
+        let (x, y) = (rng.range(15, 40), rng.range(15, 40));
+        let tf = match rng.below(3) {
+            0 => String::new(),
+            1 => format!(r#" transform="rotate({} {} {})""#, rng.range(-30, 30), x, y),
+            _ => r#" transform="scale(1.4)""#.to_string(),
+        };
+        let svg = format!(
+            r##"<svg xmlns="http://www.w3.org/2000/svg" xmlns:xlink="http://www.w3.org/1999/xlink" width="{w}" height="{h}"><g><g{tf}><image x="{x}" y="{y}" width="{iw}" height="{ih}" xlink:href="{uri}"/></g></g></svg>"##
+        );
+        let (iso, n) = inject_isolation(&svg, &mut rng, true);
+        if n == 0 {
+            continue;
+        }
+        compare(s, "image-overflow", &svg, &svg, &iso, &o, &mut rng);
     }
     // ---- corpus files in their Micro-SVG form
     let nc = if tier == "thorough" { 0 } else { 80 * mult.min(3) };
